@@ -9,7 +9,7 @@ from fractions import Fraction as Fr
 from ..harness import open_obj
 from ..index import AnalysisError
 from ..ndarr import NdArr
-from ..poly import I, Rat, apply_fn
+from ..poly import I, Rat, apply_fn, normalise_exp
 from ..scene import Scene
 from ..values import Builtin, Obj, Raised, to_rat
 from .c15 import _np_pad
@@ -28,7 +28,10 @@ EXPLANATION = (
     "Bloch face.  (3) Who-may-pad: inside the solver (fdtd/update.py) the bare pad_fields is called only from "
     "pad_fields_for_boundaries, and every array handed to a curl or an anisotropic averaging routine in the four "
     "update functions is the result of pad_fields_for_boundaries, so no neighbour read can bypass the phase.  The "
-    "supercell equality of whole runs and round-off are not decided; energy / adjointness aspects are C01's."
+    "(4) One whole forward step of a concrete cell and of its supercell (fields tiled with the Bloch phase, materials "
+    "and cell widths tiled; every entry a free symbol; uniform and stretched grids, isotropic / diagonal / full-tensor "
+    "materials, periodic and Bloch faces) agree entry by entry as rational functions — whole runs follow by induction.  "
+    "Round-off is not decided; energy / adjointness aspects are C01's."
 )
 
 N = (3, 2, 2)
@@ -242,11 +245,160 @@ def _config_kinds(ctx):
     ctx.ob("R9.4", "boundary_objects_from_config:periodic-vs-bloch", not bad and n == 30, "a face declared 'periodic' carries the zero Bloch vector even when the configuration holds a non-zero one (plain copies in the supercell), a face declared 'bloch' carries the configured vector, on its own axis and side; walls are not periodic faces (5 mixed configurations, 30 faces)", bad[:3], "periodic -> (0,0,0); bloch -> config.bloch_vector")
 
 
+def _tile(F, reps, phases=None):
+    """tile a (C, n0, n1, n2) array of entries reps[a] times along spatial axis a; copy c along axis a carries
+    phases[a] ** c"""
+    C, n = F.shape[0], F.shape[1:]
+    big = tuple(n[a] * reps[a] for a in range(3))
+    data = []
+    for c in range(C):
+        for p in itertools.product(*[range(m) for m in big]):
+            q = tuple(p[a] % n[a] for a in range(3))
+            v = to_rat(F.data[((c * n[0] + q[0]) * n[1] + q[1]) * n[2] + q[2]])
+            if phases is not None:
+                for a in range(3):
+                    for _ in range(p[a] // n[a]):
+                        v = v * phases[a]
+            data.append(v)
+    return NdArr((C,) + big, data)
+
+
+def _sym_arr(name, comps, shape):
+    return NdArr((comps,) + shape, [Rat.atom((name, c) + p) for c in range(comps) for p in itertools.product(*[range(m) for m in shape])])
+
+
+def _solve_identity(it, a, k):
+    """linalg.solve(M1, M2) with M1 the (broadcast) identity: M2 (the lossless full-tensor update)."""
+    M1, M2 = a[0], a[1]
+    if isinstance(M1, NdArr) and M1.shape[-2:] == (3, 3) and all(d == 1 for d in M1.shape[:-2]) and all(to_rat(v).equals(1 if (i // 3) == (i % 3) else 0) for i, v in enumerate(M1.data)):
+        return M2
+    raise AnalysisError("linalg.solve with a non-identity left matrix")
+
+
+def _supercell_scene(ctx, shape, periodic, kvec, widths, walls=False):
+    """a domain of `shape` cells, periodic / Bloch faces on the axes in `periodic`, elsewhere conducting walls or
+    (default) plain truncation (zero halo), so that no field entry is forced to zero; widths = None
+    (uniform) or per-axis lists of cell-width entries (resolved rectilinear grid)"""
+    from ..harness import stub_repo_calls
+
+    ix = ctx.index
+    it = ctx.fresh_interp()
+    it.ext_overrides["np.pad"] = _np_pad
+    it.ext_handlers["np.linalg.solve"] = _solve_identity
+    sc = Scene(ix, it)
+    grid = None
+    if widths is not None:
+        W = [NdArr((shape[a],), list(widths[a])) for a in range(3)]
+        edges = []
+        for a in range(3):
+            acc, e = Rat.const(0), [Rat.const(0)]
+            for w in widths[a]:
+                acc = acc + to_rat(w)
+                e.append(acc)
+            edges.append(NdArr((shape[a] + 1,), e))
+        pick = lambda tab: (lambda it_, a, k: tab[a[0] if a else k.get("axis")])
+        grid = Obj(None, {"cell_widths": Builtin("cell_widths", pick(W)), "edges": Builtin("edges", pick(edges)), "min_spacing": Rat.atom("dmin")}, "grid")
+    cfg = sc.config(resolved_grid=grid, has_nonuniform_grid=widths is not None)
+    V = ix.cls("fdtdx.objects.static_material.static.SimulationVolume")
+    objs = [Obj(V, dict(name="volume", grid_shape=shape, _grid_slice_tuple=tuple((0, n) for n in shape)), "volume")]
+    cplx = any(not to_rat(k).is_zero() for k in kvec)
+    for a in range(3):
+        for d in "-+":
+            gst = tuple(((0, 1) if d == "-" else (shape[b] - 1, shape[b])) if b == a else (0, shape[b]) for b in range(3))
+            if periodic[a]:
+                objs.append(Obj(ix.cls(BLO), dict(name=f"per_{a}{d}", axis=a, direction=d, bloch_vector=tuple(kvec), _grid_slice_tuple=gst, _config=cfg, _is_symmetry_wall=False), f"per{a}{d}"))
+            elif walls:
+                objs.append(Obj(ix.cls(PEC), dict(name=f"pec_{a}{d}", axis=a, direction=d, _grid_slice_tuple=gst, _config=cfg, _is_symmetry_wall=False), f"pec{a}{d}"))
+    OC = ix.cls("fdtdx.fdtd.container.ObjectContainer")
+    stub_repo_calls(it, {"_check_updated_state_layout": lambda it_, a, k: None})
+    return it, sc, Obj(OC, {"object_list": objs, "volume_idx": 0}, "objects"), cfg, cplx
+
+
+def _one_step(it, sc, objs, cfg, E, H, ie, im):
+    arrays = sc.arrays(fields=sc.fields(E=E, H=H), inv_permittivities=ie, inv_permeabilities=im, detector_states={})
+    try:
+        state = it.call_function("fdtdx.fdtd.forward.forward", state=(0, arrays), config=cfg, objects=objs, key=Rat.atom("key"), record_detectors=False, record_boundaries=False, simulate_boundaries=True)
+    except Raised as r:
+        raise AnalysisError(f"forward raises on the concrete periodic scene: {r}")
+    f = state[1].attrs["fields"]
+    return f.attrs["E"], f.attrs["H"]
+
+
+SUPERCELLS = [
+    # label, shape, reps, periodic axes, k, material components (eps, mu), resolved non-uniform grid
+    ("uniform:x-periodic:diag", (3, 2, 2), (2, 1, 1), (True, False, False), (0, 0, 0), (3, 3), False),
+    ("stretched:x-periodic:diag", (3, 2, 2), (2, 1, 1), (True, False, False), (0, 0, 0), (3, 3), True),
+    ("stretched:yz-periodic:iso", (2, 2, 2), (1, 2, 2), (False, True, True), (0, 0, 0), (1, 1), True),
+    ("stretched:x-periodic:full-eps", (2, 2, 2), (2, 1, 1), (True, False, False), (0, 0, 0), (9, 1), True),
+    ("stretched:y-periodic:full-mu", (2, 2, 2), (1, 2, 1), (False, True, False), (0, 0, 0), (1, 9), True),
+    ("uniform:x-bloch:diag", (3, 2, 2), (2, 1, 1), (True, False, False), (Fr(3, 2), 0, 0), (3, 3), False),
+    ("stretched:y-bloch:diag", (2, 2, 2), (1, 2, 1), (False, True, False), (0, Fr(-5, 4), 0), (3, 3), True),
+    ("stretched:z-bloch:iso", (2, 2, 2), (1, 1, 3), (False, False, True), (0, 0, Fr(7, 4)), (1, 1), True),
+]
+THOROUGH_SUPERCELLS = [
+    ("stretched:z-periodic:full-eps-full-mu", (2, 1, 2), (1, 1, 2), (False, False, True), (0, 0, 0), (9, 9), True),
+    ("stretched:xyz-periodic:diag", (2, 2, 2), (2, 2, 2), (True, True, True), (0, 0, 0), (3, 3), True),
+    ("stretched:x-periodic:x3:diag", (2, 2, 2), (3, 1, 1), (True, False, False), (0, 0, 0), (3, 3), True),
+    ("stretched:yz-periodic:iso:3", (2, 3, 2), (1, 2, 2), (False, True, True), (0, 0, 0), (1, 1), True),
+    ("stretched:y-bloch:diag:3", (2, 3, 2), (1, 2, 1), (False, True, False), (0, Fr(-5, 4), 0), (3, 3), True),
+    ("stretched:x-periodic:full-eps:3", (3, 2, 2), (2, 1, 1), (True, False, False), (0, 0, 0), (9, 3), True),
+    ("stretched:z-periodic:full-mu:3", (2, 2, 3), (1, 1, 2), (False, False, True), (0, 0, 0), (3, 9), True),
+    ("stretched:xz-bloch:iso", (3, 2, 2), (2, 1, 2), (True, False, True), (Fr(1, 2), 0, Fr(-7, 4)), (1, 1), True),
+]
+
+
+def _supercell_case(ctx, payload):
+    label, shape, reps, periodic, kvec, comps, stretched = payload
+    big = tuple(shape[a] * reps[a] for a in range(3))
+    # full tensors: distinct widths on the periodic axes only (one symbol per other axis) keeps the forms small
+    only_periodic = stretched and 9 in comps
+    widths = [[Rat.atom((f"w{a}", i if (periodic[a] or not only_periodic) else 0)) for i in range(shape[a])] for a in range(3)] if stretched else None
+    E0, H0 = _sym_arr("E", 3, shape), _sym_arr("H", 3, shape)
+    ie, im = _sym_arr("ie", comps[0], shape), _sym_arr("im", comps[1], shape)
+    it, sc, objs, cfg, cplx = _supercell_scene(ctx, shape, periodic, kvec, widths)
+    E1, H1 = _one_step(it, sc, objs, cfg, E0, H0, ie, im)
+    phases = None
+    if cplx:
+        phases = []
+        for a in range(3):
+            if to_rat(kvec[a]).is_zero() or not periodic[a]:
+                phases.append(Rat.const(1))
+            else:
+                L = sum((to_rat(w) for w in widths[a]), Rat.const(0)) if stretched else shape[a] * Rat.atom("res")
+                phases.append(apply_fn("exp", Rat.atom(I) * to_rat(kvec[a]) * L))
+    wbig = [[widths[a][i % shape[a]] for i in range(big[a])] for a in range(3)] if stretched else None
+    itb, scb, objsb, cfgb, _ = _supercell_scene(ctx, big, periodic, kvec, wbig)
+    EB1, HB1 = _one_step(itb, scb, objsb, cfgb, _tile(E0, reps, phases), _tile(H0, reps, phases), _tile(ie, reps), _tile(im, reps))
+    bad, n = None, 0
+    for ft, got, want in (("E", EB1, _tile(E1, reps, phases)), ("H", HB1, _tile(H1, reps, phases))):
+        if not (isinstance(got, NdArr) and got.shape == want.shape):
+            raise AnalysisError(f"{label}: step returns {getattr(got, 'shape', got)}")
+        for i, (g, w) in enumerate(zip(got.data, want.data)):
+            n += 1
+            if not to_rat(g).equals(to_rat(w)) and not normalise_exp(to_rat(g) - to_rat(w)).is_zero():
+                bad = bad or (f"{ft} entry {i} of {got.shape}", to_rat(g).fmt()[:260], to_rat(w).fmt()[:260])
+    ctx.ob("R9.5", f"supercell-step[{label}]", bad is None and n >= 6 * 8, f"one whole forward step of the {big} supercell (materials tiled {reps}, fields tiled with the Bloch phase per copy, same faces{', cell widths tiled' if stretched else ''}) equals the tiled step of the {shape} cell, entry by entry as rational functions of free field, material{' and cell-width' if stretched else ''} symbols" + (f" — differs for {bad[0]}" if bad else ""), bad[1] if bad else f"{n} entries", bad[2] if bad else "tile(step(cell))")
+
+
+def _supercell_steps(ctx, tier):
+    from .. import par
+
+    fwd = ctx.index.function("fdtdx.fdtd.forward.forward")
+    ctx.unit(fwd.where())
+    for q in ("fdtdx.fdtd.update.update_E", "fdtdx.fdtd.update.update_H", "fdtdx.core.physics.curl.curl_E", "fdtdx.core.physics.curl.curl_H"):
+        ctx.unit(ctx.index.function(q).where())
+    cases = SUPERCELLS + (THOROUGH_SUPERCELLS if tier == "thorough" else [])
+    err = par.run_jobs(ctx, "sa.checks.c09", "_supercell_case", cases, [c[0] for c in cases])
+    if err:
+        raise AnalysisError(err)
+
+
 def run(ctx):
     _halo_rules(ctx)
     _flags(ctx)
     _who_may_pad(ctx)
     _config_kinds(ctx)
-    ctx.require_count("C09", len(ctx.obligations), 16)
+    _supercell_steps(ctx, ctx.tier)
+    ctx.require_count("C09", len(ctx.obligations), 16 + len(SUPERCELLS))
     ctx.trusted_base += ["np.pad model on concrete arrays", "syntax-tree def-use of the padded inputs (single-assignment names)"]
     ctx.assume("uniform resolution L = N*res or resolved-grid extent; the supercell copy c carries exp(i k c L)")
